@@ -262,10 +262,11 @@ class Model():
 
         # Also remove all of the entry points
         for attacker in self.attackers:
-            entry_point_tuple = attacker.get_entry_point_tuple(asset)
-            if entry_point_tuple:
-                attacker.entry_points = _without(
-                    attacker.entry_points, entry_point_tuple)
+            # Drop every entry point on the asset, an attacker attachment
+            # built by hand may hold more than one tuple for it
+            attacker.entry_points = [entry_point_tuple \
+                for entry_point_tuple in attacker.entry_points \
+                if entry_point_tuple[0] is not asset]
 
         self.assets = _without(self.assets, asset)
 
